@@ -769,6 +769,13 @@ impl<T: Config> UdpProtocol<T> {
             let last_recv_frame = self.last_recv_frame();
             self.recv_inputs
                 .retain(|&k, _| k >= last_recv_frame - 2 * self.max_prediction as i32);
+        } else {
+            // The packet is encoded against an input we no longer hold: our acknowledgements got
+            // lost and the sender still starts at a frame we pruned long ago. Without a reply the
+            // sender would retransmit the same undecodable packet forever (a receiver that never
+            // sends inputs itself, like a spectator, has no other way to acknowledge). Tell the
+            // sender what we have so that its next packet starts at a frame we can decode.
+            self.send_input_ack();
         }
     }
 
